@@ -218,9 +218,11 @@ def run_text(case):
     # 1. construction: text, checksum, state
     d = attempt(P2WSHSortedMulti, m, lib_records(recs))
     got = d if isinstance(d, Rejected) else attempt(state_of, d)
+    ctor_bad = None
     if got != exp:
+        ctor_bad = diff_class(got, exp)
         res.violation(
-            f"C16/text/construct-{diff_class(got, exp)}/{slip}", vc, got if isinstance(got, Rejected) else got["str"], exp["str"],
+            f"C16/text/construct-{ctor_bad}/{slip}", vc, got if isinstance(got, Rejected) else got["str"], exp["str"],
             "descriptor built from key records differs from the reference text / Core checksum / canonical record order",
         )
     else:
@@ -234,13 +236,20 @@ def run_text(case):
     p = attempt(P2WSHSortedMulti.parse, exp["str"])
     gotp = p if isinstance(p, Rejected) else attempt(state_of, p)
     if isinstance(gotp, Rejected):
-        res.violation(f"C16/text/parse-rejected/{w['tag'].split('/')[4]}", vc, repr(gotp), exp["str"], "parse() rejects the canonical descriptor text with its correct checksum")
+        qual = w["tag"].split("/")[4] if ctor_bad is None else f"with-construct-{ctor_bad}"
+        res.violation(f"C16/text/parse-rejected/{qual}", vc, repr(gotp), exp["str"], "parse() rejects the canonical descriptor text with its correct checksum")
     elif gotp != exp:
         res.violation(f"C16/text/parse-{diff_class(gotp, exp)}/{slip}", vc, gotp["str"], exp["str"], "parse(text) does not reproduce the descriptor")
     else:
         res.ok("parse(text)==descriptor", nontrivial=("parse", tag))
 
     # 3. state is independent of the order in which key records are supplied
+    # (compared with the reference state, or - when construction already deviates from the reference -
+    #  with the state the library itself produced for the first supply order, to isolate order dependence)
+    if ctor_bad is not None:
+        if isinstance(got, Rejected):
+            return res
+        exp = got
     base = lib_records(recs)
     canon_perm = [[r["xfp"] for r in recs].index(c["xfp"]) for c in canon]
     bad = None
